@@ -61,6 +61,15 @@ def coq_str(s: str) -> str:
     return 'K"' + s.replace('"', '""') + '"'
 
 
+def coq_bytes(s: str) -> str:
+    """any byte string, control characters included, as a Coq list of characters"""
+    if all(32 <= ord(ch) <= 126 for ch in s):
+        return coq_str(s)
+    if any(ord(ch) > 126 for ch in s):
+        raise TranslatorError(f"translator cannot express the constant {s!r}")
+    return "[" + "; ".join(f"Ascii.ascii_of_nat {ord(ch)}" for ch in s) + "]"
+
+
 def coq_list(xs: list[str]) -> str:
     return "[" + "; ".join(coq_str(x) for x in xs) + "]"
 
@@ -344,6 +353,44 @@ def result_name_prefix() -> tuple[str, int, int]:
     return prefix, rng[0], rng[1]
 
 
+def replace_chain(func: str) -> list[tuple[str, str]]:
+    """the body `return text.replace(a1, b1).replace(a2, b2)...` of an escape helper, as the ordered list of pairs"""
+    tree = _parse("stubs_generator/_helper.py")
+    f = _find_func(tree, func)
+    if f is None or len(f.args.args) != 1:
+        raise TranslatorError(f"translator cannot read {func}")
+    arg = f.args.args[0].arg
+    rets = [n for n in f.body if not (isinstance(n, ast.Expr) and isinstance(n.value, ast.Constant))]
+    if len(rets) != 1 or not isinstance(rets[0], ast.Return) or rets[0].value is None:
+        raise TranslatorError(f"translator cannot read {func}: the body is not a single return")
+    pairs: list[tuple[str, str]] = []
+    node = rets[0].value
+    while True:
+        if isinstance(node, ast.Name) and node.id == arg:
+            break
+        ok = (isinstance(node, ast.Call) and isinstance(node.func, ast.Attribute) and node.func.attr == "replace"
+              and len(node.args) == 2 and not node.keywords
+              and all(isinstance(a, ast.Constant) and isinstance(a.value, str) for a in node.args))
+        if not ok:
+            raise TranslatorError(f"translator cannot read {func}: not a chain of str.replace calls on the argument")
+        pairs.append((node.args[0].value, node.args[1].value))  # type: ignore[union-attr]
+        node = node.func.value  # type: ignore[union-attr]
+    pairs.reverse()
+    if any(not a for a, _ in pairs):
+        raise TranslatorError(f"translator cannot read {func}: empty pattern")
+    return pairs
+
+
+def escape_call_sites() -> dict[str, int]:
+    """how often the generator applies the two escape helpers (the model applies them at the same places)"""
+    tree = _parse("stubs_generator/_stub_string_generator.py")
+    out = {"_escape_comment_text": 0, "_escape_string_content": 0}
+    for node in ast.walk(tree):
+        if isinstance(node, ast.Call) and isinstance(node.func, ast.Name) and node.func.id in out:
+            out[node.func.id] += 1
+    return out
+
+
 def generate() -> str:
     kw = keywords()
     todo = todo_messages()
@@ -380,6 +427,12 @@ def generate() -> str:
     w(f"Definition t_mypy_iterables : list str := {coq_list(_set_containing('api_analyzer/_ast_visitor.py', 'mypy_type_to_abstract_type', ['tuple', 'list', 'set', 'Sequence'], 'the iterable builtin names of mypy_type_to_abstract_type'))}.")
     w(f"Definition t_mypy_mappings : list str := {coq_list(_set_containing('api_analyzer/_ast_visitor.py', 'mypy_type_to_abstract_type', ['dict', 'Mapping'], 'the mapping names of mypy_type_to_abstract_type'))}.")
     w(f"Definition t_unbound_builtin : list str := {coq_list(_set_containing('api_analyzer/_ast_visitor.py', 'mypy_type_to_abstract_type', ['Any', 'str', 'None'], 'the unbound builtin names of mypy_type_to_abstract_type'))}.")
+    for nm, fn in (("t_comment_escapes", "_escape_comment_text"), ("t_string_escapes", "_escape_string_content")):
+        w(f"Definition {nm} : list (str * str) := [" + "; ".join(
+            f"({coq_bytes(a)}, {coq_bytes(b)})" for a, b in replace_chain(fn)) + "].")
+    sites = escape_call_sites()
+    w(f"Definition t_comment_escape_sites : nat := {sites['_escape_comment_text']}.")
+    w(f"Definition t_string_escape_sites : nat := {sites['_escape_string_content']}.")
     w("")
     return "\n".join(lines)
 
